@@ -34,7 +34,7 @@ type State struct {
 	h     [4]*HeapLayer
 	brk   *Term
 	ghost *ghostNode
-	held  *ghostNode // lock tokens (name -> Bool const), later phases
+	gepoch int
 }
 
 func (st State) assume(t *Term) State {
@@ -328,6 +328,8 @@ type Exec struct {
 	stack      []*ssa.Function
 	forceInline bool
 	noCut      bool
+	gepochs    int
+	rootEntrySt State
 	escaped    map[*Term]bool
 	times      map[*Term]civil
 	fpBits     map[*Term]*Term
